@@ -43,8 +43,14 @@ fn c18_truncate_valid_full() {
     kani::cover!(!(p[0] > h || p[1] > h), "no action above the threshold");
     kani::cover!(h < 0.0, "negative threshold");
     kani::cover!(h == f64::INFINITY, "threshold +inf");
-    assert!(valid_dist(&q[0..2]), "C18 valid: infoset 0 is not a distribution after truncate");
-    assert!(valid_dist(&q[2..4]), "C18 valid: infoset 1 is not a distribution after truncate");
+    assert!(
+        valid_dist(&q[0..2]),
+        "C18 valid: infoset 0 is not a distribution after truncate"
+    );
+    assert!(
+        valid_dist(&q[2..4]),
+        "C18 valid: infoset 1 is not a distribution after truncate"
+    );
     for base in [0usize, 2] {
         if p[base] > h || p[base + 1] > h {
             for i in base..base + 2 {
@@ -93,11 +99,26 @@ fn c18_truncate_values_dyadic() {
     }
     kani::cover!(tot > 0 && tot < 16, "proper subset survives");
     kani::cover!(tot == 0, "nothing survives");
-    kani::cover!(tot == 16 && k0 > 0 && k1 > 0 && k2 > 0, "threshold below every positive probability");
-    assert!(valid_dist(&q), "C18 valid: not a distribution after truncate (dyadic)");
-    assert!(valid_dist(&r), "C18 valid: other player's infoset not a distribution after truncate");
-    assert!(near(q[0] + q[1] + q[2], 1.0), "C18 sum: result does not sum to one");
-    assert!(near(r[0] + r[1], 1.0), "C18 sum: result does not sum to one (player two)");
+    kani::cover!(
+        tot == 16 && k0 > 0 && k1 > 0 && k2 > 0,
+        "threshold below every positive probability"
+    );
+    assert!(
+        valid_dist(&q),
+        "C18 valid: not a distribution after truncate (dyadic)"
+    );
+    assert!(
+        valid_dist(&r),
+        "C18 valid: other player's infoset not a distribution after truncate"
+    );
+    assert!(
+        near(q[0] + q[1] + q[2], 1.0),
+        "C18 sum: result does not sum to one"
+    );
+    assert!(
+        near(r[0] + r[1], 1.0),
+        "C18 sum: result does not sum to one (player two)"
+    );
     if tot > 0 {
         for i in 0..3 {
             let want = if (kk[i] as i32) * 2 > (j as i32 - 1) {
@@ -105,22 +126,34 @@ fn c18_truncate_values_dyadic() {
             } else {
                 0.0
             };
-            assert!(near(q[i], want), "C18 rescale: survivor is not p_i / sum of survivors");
+            assert!(
+                near(q[i], want),
+                "C18 rescale: survivor is not p_i / sum of survivors"
+            );
         }
     }
     if tot == 16 && j >= 1 {
         // threshold below every positive probability (and non-negative): nothing changes
         for i in 0..3 {
-            assert!(near(q[i], p[i]), "C18 unchanged: low threshold changed the profile");
+            assert!(
+                near(q[i], p[i]),
+                "C18 unchanged: low threshold changed the profile"
+            );
         }
     }
     // idempotence
     s.truncate(h);
     for i in 0..3 {
-        assert!(near(s.probs[0][i], q[i]), "C18 idempotent: second truncate changed the profile");
+        assert!(
+            near(s.probs[0][i], q[i]),
+            "C18 idempotent: second truncate changed the profile"
+        );
     }
     for i in 0..2 {
-        assert!(near(s.probs[1][i], r[i]), "C18 idempotent: second truncate changed the profile (player two)");
+        assert!(
+            near(s.probs[1][i], r[i]),
+            "C18 idempotent: second truncate changed the profile (player two)"
+        );
     }
     core::mem::forget(s);
 }
